@@ -8,7 +8,7 @@
    (fix 5d0e7a40a).  The parser now rejects text that is not valid UTF-8; the witnesses are
    corpus cases of the harness and the examples below. *)
 From Coq Require Import ZArith List Bool String.
-From TD Require Import Lib.GoSem Lib.Utf Model.EntitySort Model.Entity Model.Html Proof.Entity Proof.Html.
+From TD Require Import Lib.GoSem Lib.Utf Model.EntitySort Model.Entity Model.Html Model.Markdown Proof.Entity Proof.Html Proof.Markdown.
 Import ListNotations.
 Open Scope string_scope.
 Open Scope Z_scope.
@@ -35,6 +35,17 @@ Theorem C37_html_after_build :
 Proof. exact html_after_build. Qed.
 Print Assumptions C37_html_after_build.
 
+(* Markdown: for ALL goldmark ASTs (projected to the node kinds the renderer distinguishes) whose
+   written byte strings are valid UTF-8 (mdbs_ok; what goldmark yields for a valid source, checked
+   by the harness, not proved -- goldmark is not modelled) and every outcome of urlFormatter:
+   markdown.Markdown + Builder.Complete never panics and the entities lie within the text. *)
+Theorem C37_markdown_render :
+  forall (src_valid : bool) (doc : mdbs), mdbs_ok doc ->
+    markdown_complete src_valid b_init doc <> Panic /\
+    forall text es, markdown_complete src_valid b_init doc = Ok (text, es) -> Forall (within_text text) es.
+Proof. exact markdown_from_init. Qed.
+Print Assumptions C37_markdown_render.
+
 (* telegramUnescape rewrites its buffer in place: every entity writes at most as many bytes as
    it consumes and consumes at least one byte within the buffer, so dst never overtakes src and
    utf8.EncodeRune / copy never run out of room. *)
@@ -59,3 +70,13 @@ Example C37_nested_trim :
             HText (tk "def ") (tk "def "); HEnd (tk "i"); HEnd (tk "b"); HErr true]
   = Ok (tk "abc def", [mk_ent 0 7 T_bold; mk_ent 4 3 T_italic]).
 Proof. vm_compute. reflexivity. Qed.
+(* **a `b `** : bold contains a code span ending in a space (old code: code 2+3, bold 0+4 in "a b") *)
+Example C37_markdown_nested_trim :
+  markdown_complete true b_init
+    (BCons (MPara (ICons (MStyled T_bold (ICons (MText (tk "a ") (tk "a ") false)
+                                            (ICons (MCode (ICons (MText (tk "b ") (tk "b ") false) INil)) INil))) INil)) BNil)
+  = Ok (tk "a b", [mk_ent 0 3 T_bold; mk_ent 2 1 T_code]).
+Proof. vm_compute. reflexivity. Qed.
+Example C37_markdown_ok_nonvacuous :
+  mdbs_ok (BCons (MPara (ICons (MText (tk "a ") (tk "a ") false) INil)) BNil).
+Proof. cbn. repeat split; reflexivity. Qed.
